@@ -569,6 +569,19 @@ def full_table(kind, data, policy, req, calls):
     return rows
 
 
+def run_model_parallel(lines, workers=12):
+    """lib.run_model from several threads (one runner process each, its output read as it is produced)"""
+    from concurrent.futures import ThreadPoolExecutor
+    n = min(workers, max(1, len(lines) // 40))
+    if n <= 1:
+        return lib.run_model(RUNNER, lines)
+    size = (len(lines) + n - 1) // n
+    blocks = [lines[i:i + size] for i in range(0, len(lines), size)]
+    with ThreadPoolExecutor(len(blocks)) as ex:
+        parts = list(ex.map(lambda b: lib.run_model(RUNNER, b, chunk=len(b) + 1, procs=1), blocks))
+    return [x for part in parts for x in part]
+
+
 def model_lines(cases, impls):
     lines, index = [], []
     for ci, (c, i) in enumerate(zip(cases, impls)):
@@ -612,7 +625,7 @@ def model_lines(cases, impls):
             lines.append(lib.model_call("relcond.key", c["b"], d))
             index.append((ci, "ka"))
             index.append((ci, "kb"))
-    outs = [lib.dec(x) for x in lib.run_model(RUNNER, lines)]
+    outs = [lib.dec(x) for x in run_model_parallel(lines)]
     per = [[] for _ in cases]
     for (ci, tag), o in zip(index, outs):
         if tag == "seq":
@@ -708,8 +721,9 @@ def judge_decision(chk, case, where, policy, req, kind, impl, model, others, rep
         need = [q for q in model["log"] if qkey(*q) not in mine]
         reused = [q for q in need if qkey(*q) in others]
         if reused:
-            chk.violation("a decision differs from what the relationship data at its time yields, and a lookup it needed "
-                          "was made only in another decision: reuse across decisions (c13_fresh_per_decision)", case,
+            chk.violation("a decision differs from what the relationship data at its time yields: a lookup it needed was "
+                          "skipped although another decision of the case made it (an answer carried across decisions, or a "
+                          "rel node decided without its lookup) (c13_fresh_per_decision, c13_exact_triple_holds)", case,
                           impl=dict(show, skipped=reused), model=mshow)
             return "violation"
         chk.corr_break("Decision differs from the model on the relationship data of the case", case, impl=show, model=mshow,
@@ -863,7 +877,51 @@ def variants_of(c):
     return out
 
 
+def reproduces_alone(case):
+    """does the case fail when it is the only thing a fresh process evaluates (as --replay does)?"""
+    import os
+    import subprocess
+    import sys
+    code = ("import sys, json; sys.path.insert(0, %r); import lib, c13; "
+            "c = lib.unjson(json.loads(sys.stdin.read())); k = lib.Check('C13', 'quick', 0); "
+            "c13.check_cases(k, [c], replay=True); print('FAILS' if (k.violations or k.corr_breaks) else 'PASSES')"
+            % os.path.dirname(os.path.abspath(__file__)))
+    try:
+        r = subprocess.run([sys.executable, "-c", code], input=json.dumps(lib.jsonable(case)), capture_output=True,
+                           text=True, timeout=300)
+        return "FAILS" in r.stdout
+    except Exception:  # noqa: BLE001
+        return True
+
+
+def order_by_reproducibility(chk, start):
+    """violations whose case fails on its own first: a failure that needs what an earlier case left behind in
+    the process (state leaking between decisions of different engines) is real, but its replay file alone is not"""
+    new = chk.violations[start:start + 30]
+    rest = chk.violations[start + 30:]
+    alone, needs_history = [], []
+    for v in new:
+        if len(alone) >= 20:
+            needs_history.append(v)
+            continue
+        if reproduces_alone(lib.unjson(v["case"])):
+            alone.append(v)
+        else:
+            v["note"] = (v.get("note") or "") + " [did not fail when replayed alone: depends on evaluations made earlier in the same process]"
+            needs_history.append(v)
+    chk.violations[start:] = alone + needs_history + rest
+
+
 def check_cases(chk, cases, replay=False, search=True):
+    nviol0 = len(chk.violations)
+    try:
+        _check_cases(chk, cases, replay, search)
+    finally:
+        if not replay and search and len(chk.violations) > nviol0 and nviol0 < 20:
+            order_by_reproducibility(chk, nviol0)
+
+
+def _check_cases(chk, cases, replay=False, search=True):
     cases = [c for c in cases]
     # sync/async twins: same data delivered through an async checker must give the same decisions and lookups
     twins = []
@@ -906,7 +964,7 @@ def check_cases(chk, cases, replay=False, search=True):
             vs += variants_of(c)
         if vs:
             sub = lib.Check(chk.prop, chk.tier, chk.seed)
-            check_cases(sub, vs, replay=False, search=False)
+            _check_cases(sub, vs, replay=False, search=False)
             chk.count("search:variants", len(vs))
             for v in sub.violations[:5]:
                 chk.violations.append(v)
@@ -1216,12 +1274,16 @@ def run(chk):
                        "propagation (asyncio tasks, asyncio.to_thread, run_coroutine_threadsafe)"]
     cases = corpus_cases() + f23_cases()
     cases += enumerated(chk)
-    cases += random_cases(chk, 2500 if quick else 40000)
-    cases += conc_cases(chk, 100 if quick else 1500)
-    cases += slow_cases(chk, 8 if quick else 150)
+    cases += conc_cases(chk, 150 if quick else 1500)
+    cases += slow_cases(chk, 10 if quick else 150)
     cases += cond_cases(chk)
     cases += hash_cases(chk)
     chk.exhaustive = True
     check_cases(chk, cases)
+    n = 4500 if quick else 40000
+    while n > 0 and len(chk.violations) < 20:
+        k = min(n, 4000)
+        check_cases(chk, random_cases(chk, k))
+        n -= k
     chk.extra["decisions_checked"] = chk.traces
     chk.extra["f23_switch"] = "datetime and its str() share a memo key" if f23_present() else "datetimes kept apart (repaired)"
